@@ -585,7 +585,7 @@ func (m *ModSpec) ResolveAt(fx *FnExec, pkg *types.Package, names []string, argV
 			d, v := fx.tc.MapKeys(types.NewMap(env.goType(parts[0]), env.goType(parts[1])))
 			ms.Add(d)
 			ms.Add(v)
-		case strings.HasPrefix(it, "H$") || strings.HasPrefix(it, "E$") || strings.HasPrefix(it, "B$") || strings.HasPrefix(it, "G$") || strings.HasPrefix(it, "M") || it == "BigVal":
+		case strings.HasPrefix(it, "H$") || strings.HasPrefix(it, "E$") || strings.HasPrefix(it, "B$") || strings.HasPrefix(it, "G$") || strings.HasPrefix(it, "MD$") || strings.HasPrefix(it, "MV$") || it == "BigVal":
 			if _, ok := heapSorts[it]; !ok {
 				if it == "BigVal" {
 					registerHeapKey("BigVal", ArraySort(SInt, SInt))
